@@ -32,6 +32,11 @@ def describe(s: dict | None, comps: dict, depth: int = 0) -> dict:
                         and (comps.get(m.get("name")) or {}).get("base") == "int") for m in ms)
         d["bool_and_int_enum"] = "bool" in kinds and int_enum
         d["arrays"] = kinds.count("array")
+
+        def _closed(m):
+            t = comps.get(m.get("name")) if m.get("k") == "ref" else m
+            return bool(t) and t.get("k") == "object" and t.get("addl") is False
+        d["closed_object_member"] = any(_closed(m) for m in ms) and sum(1 for x in kinds if x in ("object", "ref:object")) >= 2
     elif k == "enum":
         d["base"] = s.get("base")
         if s.get("null"):
